@@ -112,7 +112,7 @@ fn gen_tri2(r: &mut Rng, lat: bool) -> [P2; 3] {
     }
 }
 fn htri(t: &[P2; 3]) -> String { format!("{} {} {}", d2::hp(&t[0]), d2::hp(&t[1]), d2::hp(&t[2])) }
-fn hpts(v: &[P2]) -> String { format!("{} {}", v.len(), v.iter().map(d2::hp).collect::<Vec<_>>().join(" ")) }
+fn hpts(v: &[P2]) -> String { if v.is_empty() { "0".into() } else { format!("{} {}", v.len(), v.iter().map(d2::hp).collect::<Vec<_>>().join(" ")) } }
 
 /// convex polygons: lattice templates (incl. collinear vertices) under exact symmetries, or points on a rotated ellipse
 fn gen_convex(r: &mut Rng, lat: bool, thorough: bool) -> Vec<P2> {
@@ -246,7 +246,7 @@ pub fn gen(r: &mut Rng, thorough: bool) -> Vec<(String, String)> {
         for f in ["tri_area", "tri_center", "tri_unit_inertia"] { v.push((f.into(), htri(&t))); }
         v.push(("from_triangle".into(), format!("{} {}", hx(d), htri(&t))));
         // convex polygons
-        let poly = gen_convex(r, lat, thorough);
+        let poly = if r.below(150) == 0 { Vec::new() } else { gen_convex(r, lat, thorough) };
         v.push(("poly_area_com".into(), hpts(&poly)));
         v.push(("from_convex_polygon".into(), format!("{} {}", hx(d), hpts(&poly))));
         // 2-D meshes
